@@ -14,7 +14,7 @@
    [fixes_all] = the tree after the C05 fix commits, [fixes_pinned] = before. *)
 From Lal Require Import Common.LBytes Common.Res Media.MediaMsgChecked Media.MediaMsgProofs Media.MediaDummyAudio Media.MediaDummyProofs
   Media.MediaTsRemux Media.MediaTsProofs Media.MediaRtspRemux Media.MediaRtspProofs Media.MediaBroadcast Media.MediaBroadcastProofs
-  Media.MediaCodecGlue Media.MediaGlueProofs Media.MediaCostProofs.
+  Media.MediaCodecGlue Media.MediaGlueProofs Media.MediaCostProofs Media.MediaAmortProofs.
 From Lal Require Import Codec.CodecBits.
 Open Scope N_scope.
 
@@ -46,14 +46,25 @@ Theorem c05_no_panic_short_payloads : forall (c : grp_cfg) (history : list gev),
 Proof. exact no_panic_short. Qed.
 Print Assumptions c05_no_panic_short_payloads.
 
-(* --- bounded work (partial) -------------------------------------------------------------------- *)
-(* Full statement wanted: for every history, sum of step costs <= a * (sum of payload sizes) + b * (number
-   of messages).  Proved: (1) one fan-out step costs at most (8 + number of rtmp / http-flv consumers) *
-   (1 + payload length) plus the bytes still held in the two probe queues (each queued message is
-   visited once more, when its queue drains), whatever the timestamp; (2) the dummy audio filter pops at
-   most 478 messages per message it handles.  Missing: the composition of (1) and (2) into one
-   amortised inequality over histories (potential = bytes in the three analysis queues). *)
-Theorem c05_bounded_work_partial :
+(* --- bounded work ------------------------------------------------------------------------------ *)
+(* [m_gtotal fx c h] = total work of history h, every step counted as
+     (8 + rtmp and http-flv consumers attached) * (1 + payload length)            the message itself
+     + (1 + length) of every message leaving the mpegts probe queue / the rtsp analysis cache at that step
+   and, with dummy audio on, the same for every message the filter pops (queued messages, generated silence).
+   Amortised over the history it is linear in what was published, whatever the timestamps:
+   J = number of rtmp / http-flv joins, 4293 = 477 silent frames of 9 = 10 s of silence per message at most *)
+Theorem c05_bounded_work : forall (c : grp_cfg) (history : list gev),
+  gc_add c = false ->
+  (forall m, In (GPub m) history -> well_framed m /\ f13_free m) ->
+  exists total, m_gtotal fixes_all c history = Some total /\
+                total <= (11 + joins_count history) * pubs_cost history
+                         + (10 + joins_count history) * 4293 * pubs_count history.
+Proof. exact bounded_work_main. Qed.
+Print Assumptions c05_bounded_work.
+
+(* per step, for every state (not only reachable ones), configuration and codec functions: a message costs
+   at most fan * (1 + length) plus the bytes still held in the two probe queues; the timestamp does not occur *)
+Theorem c05_bounded_step :
   (forall fx cf rf sf acfg c g m g' k,
       broadcast fx cf rf sf acfg c g m = Ok (g', k) -> k <= fan g * msg_cost m + pending g) /\
   (forall wait st m, Forall well_framed (du_queue st) -> well_framed m ->
@@ -63,7 +74,7 @@ Proof.
   - exact broadcast_cost.
   - intros wait st m Hq Hm. exact (dummy_outputs_bounded fixes_all wait st m eq_refl eq_refl eq_refl Hq Hm).
 Qed.
-Print Assumptions c05_bounded_work_partial.
+Print Assumptions c05_bounded_step.
 
 (* --- refutations: the pinned tree, site by site --------------------------------------------------- *)
 Definition cfg_all : grp_cfg := mk_gcfg true true true true true true None false.
